@@ -74,7 +74,7 @@ Definition drop_duplicates (f : frame) : frame := drop_dups_aux [] f.
 (* ---------------------------------------------------------------- _preprocess_data *)
 (* raw rows: column name -> cell as delivered by the reader *)
 Definition rawrow := list (ustr * cell).
-(* step 1  data.map(str);  step 2  replace(na_values, None);  step 3  dropna(subset=references);
+(* step 0  dropna(subset=references);  step 1  data.map(str);  step 2  replace(na_values, None);  step 3  dropna(subset=references);
    step 4  astype(str) (a remaining None in a non-referenced column prints as "None"; convert_dtypes makes it "<NA>",
            neither can be referenced);  step 5  drop_duplicates *)
 Definition is_na (na : list ustr) (s : ustr) : bool := mem s na.
@@ -83,15 +83,19 @@ Definition row_has_null (na : list ustr) (refs : list ustr) (r : row) : bool :=
   existsb (fun k => match rget k r with Some v => is_na na v | None => false end) refs.
 Definition null_to_text (na : list ustr) (r : row) : row :=
   map (fun kv => (fst kv, if is_na na (snd kv) then u "<NA>" else snd kv)) r.
+(* step 0 (since the repair of the NULL-as-text defect): dropna(subset=references) on the cells as delivered *)
+Definition raw_has_null (refs : list ustr) (r : rawrow) : bool :=
+  existsb (fun k => match assoc k r with Some CNone | Some CNaN => true | _ => false end) refs.
 Definition preprocess (na : list ustr) (refs : list ustr) (f : list rawrow) : frame :=
-  drop_duplicates (map (null_to_text na) (filter (fun r => negb (row_has_null na refs r)) (map str_row f))).
+  drop_duplicates (map (null_to_text na) (filter (fun r => negb (row_has_null na refs r))
+                                                 (map str_row (filter (fun r => negb (raw_has_null refs r)) f)))).
 
 (* ---------------------------------------------------------------- readers ("arrival") *)
 (* An abstract table: column names and rows of optional typed values.  vnull is the NULL of the property. *)
 Inductive value := VNull | VStr (s : ustr) | VInt (z : Z) | VFloatI (z : Z) | VBool (b : bool).
 Record table := { t_cols : list ustr; t_rows : list (list value) }.
 
-Inductive skind := SCsv | SSqlTable | SSqlQuery | SColumnar | SJson | SFrame.
+Inductive skind := SCsv | SSqlTable | SSqlQuery | SColumnar | SJson | SXml | SView | SFrame.
 
 Definition zip_row {A} (cols : list ustr) (vals : list A) : list (ustr * A) := combine cols vals.
 Definition has_cols (cols refs : list ustr) : bool := forallb (fun r => mem r cols) refs.
@@ -146,5 +150,18 @@ Definition arrive (k : skind) (refs : list ustr) (t : table) : result (list rawr
       let idx := map (fun c => mem c refs) (t_cols t) in
       let keep := filter (fun r => negb (existsb (fun bv => fst bv && value_is_null (snd bv)) (combine idx r))) (t_rows t) in
       Ok (map (fun r => project refs r) (coerce_rows (t_cols t) keep))
+  | SXml =>
+      (* ElementTree: an absent node and an empty node both end as a null cell; the empty string cannot be told from NULL *)
+      Ok (map (fun r => project refs (zip_row (t_cols t)
+              (map (fun v => match v with VNull => CNone | VStr [] => CNone | VStr s => CStr s | VInt z => CStr (dec_of_Z z)
+                                      | VFloatI z => CStr (dec_of_Z z ++ u ".0") | VBool true => CStr (u "True") | VBool false => CStr (u "False") end) r)))
+              (t_rows t))
+  | SView =>
+      (* DuckDB over a CSV file: an empty cell is NULL; all columns of the query are delivered (string columns only: a column
+         DuckDB can read as a number, boolean or date is outside the model) *)
+      Ok (map (fun r => zip_row (t_cols t)
+              (map (fun v => match v with VNull => CNone | VStr [] => CNone | VStr s => CStr s | VInt z => CStr (dec_of_Z z)
+                                      | VFloatI z => CStr (dec_of_Z z ++ u ".0") | VBool true => CStr (u "True") | VBool false => CStr (u "False") end) r))
+              (t_rows t))
   | SFrame => Ok (map (fun r => project refs r) (coerce_rows (t_cols t) (t_rows t)))
   end.
